@@ -24,7 +24,8 @@ class Preemptor:
     """
 
     def __init__(self, prefixes: tuple[str, ...], points: dict[int, Callable[[Any], None]],
-                 every: Callable[[Any], None] | None = None, max_events: int = 2_000_000):
+                 every: Callable[[Any], None] | None = None, max_events: int = 2_000_000,
+                 site_points: dict[int, Callable[[Any], None]] | None = None):
         self.prefixes = prefixes
         self.points = points
         self.every = every
@@ -32,9 +33,23 @@ class Preemptor:
         self.taken: list[int] = []
         self.max_events = max_events
         self.sites: list[str] = []
+        # distinct source lines in order of first execution; ``site_points`` schedules a
+        # callback at the first execution of the j-th distinct line (a far smaller space than
+        # line-event ordinals: loops revisit the same lines)
+        self.site_points = site_points or {}
+        self.site_order: list[tuple[str, int, str]] = []
+        self._site_seen: set[tuple[str, int]] = set()
+        # ordinals of the first ``early_k`` executions of every distinct line (counting passes)
+        self.early_k = 0
+        self.early: list[int] = []
+        self._site_count: dict[tuple[str, int], int] = {}
 
     def run(self, fn: Callable[[], Any]) -> Any:
         self.ordinal = 0
+        self.site_order = []
+        self._site_seen = set()
+        self.early = []
+        self._site_count = {}
         old = sys.gettrace()
         sys.settrace(self._global)
         try:
@@ -56,6 +71,18 @@ class Preemptor:
                 sys.settrace(None)
                 return None
             cb = self.points.get(k)
+            key = (frame.f_code.co_filename, frame.f_lineno)
+            if self.early_k:
+                c = self._site_count.get(key, 0)
+                if c < self.early_k:
+                    self._site_count[key] = c + 1
+                    self.early.append(k)
+            if key not in self._site_seen:
+                self._site_seen.add(key)
+                j = len(self.site_order)
+                self.site_order.append((os.path.basename(key[0]), key[1], frame.f_code.co_name))
+                if cb is None:
+                    cb = self.site_points.get(j)
             if cb is not None:
                 sys.settrace(None)
                 try:
